@@ -629,6 +629,10 @@ class _NpFacade:
 
     def average(self, a, axis=None, weights=None, **k):
         if has_sym(a) or has_sym(weights):
+            arr2 = a if isinstance(a, _np.ndarray) else None
+            if arr2 is not None and arr2.ndim == 2 and axis in (0, 1, -1):
+                rows = arr2 if axis in (1, -1) else arr2.T
+                return _obj_array([self.average(r, weights=weights) for r in rows])
             xs = _elems(a)
             if weights is None:
                 return sym_mean(xs)
